@@ -5,7 +5,7 @@ set -u
 diff=$1; shift
 export GOFLAGS=-mod=mod GOPROXY=off GOSUMDB=off GOTOOLCHAIN=local
 wt=/tmp/mr-$$
-git -C /repo worktree add -q $wt HEAD || exit 9
+git -C /repo worktree add -q $wt ${REV:-HEAD} || exit 9
 trap 'git -C /repo worktree remove --force '$wt' >/dev/null 2>&1' EXIT
 git -C $wt apply $diff || { echo "patch does not apply: $diff"; exit 8; }
 ( cd $wt && go build ./... ) || { echo "does not build"; exit 7; }
